@@ -243,10 +243,10 @@ std::vector<double> make_matrix(const raw_t& r)
     return out;
 }
 
-rc::Gen<raw_t> gen_raw()
+rc::Gen<raw_t> gen_raw(const bool small_n = false)
 {
     return rc::gen::mapcat(
-        rc::gen::tuple(gen::range<int>(1, 8), gen::range<int>(0, 2), gen::real(0.0, 1.0)),
+        rc::gen::tuple(small_n ? rc::gen::element(1, 1, 1, 2, 2, 3) : gen::range<int>(1, 8), gen::range<int>(0, 2), gen::real(0.0, 1.0)),
         [](const std::tuple<int, int, double>& t) -> rc::Gen<raw_t>
         {
             const auto n      = std::get<0>(t);
@@ -290,7 +290,8 @@ enum class family_t
     ellipsoid,
     bundle,
     bundle_small,
-    bundle_asan
+    bundle_asan,
+    bundle_corner // the corner of the quantifier where the tolerance eps*sqrt(n) is smallest: n in 1..3, eps at (or just above) 1e-8, bundle::max_size biased to 2
 };
 
 rc::Gen<scase_t> gen_case(const family_t family)
@@ -311,6 +312,8 @@ rc::Gen<scase_t> gen_case(const family_t family)
                                       });
     const auto g_size  = family == family_t::bundle_small
                            ? gen::range<int>(2, 4)
+                           : family == family_t::bundle_corner
+                           ? rc::gen::mapcat(gen::range<int>(0, 9), [=](int k) { return k < 4 ? rc::gen::just(2) : (k < 6 ? gen::range<int>(3, 4) : g_large); })
                            : (family == family_t::bundle_asan
                                   ? rc::gen::mapcat(gen::chance(50), [=](bool small) { return small ? gen::range<int>(2, 4) : g_large; })
                                   : g_large);
@@ -332,7 +335,10 @@ rc::Gen<scase_t> gen_case(const family_t family)
     // ellipsoid radius: default (10 > 4 >= |x0-x*|) or a multiple of the distance to the minimum
     const auto g_radius = rc::gen::pair(gen::chance(30), gen::logu(1.05, 8.0));
 
-    return rc::gen::map(rc::gen::tuple(gen_raw(), g_solver, g_size, g_evals, gen::logu(1e-8, 1e-3), g_radius, gen_draws(slots, 5)),
+    const auto g_eps = family == family_t::bundle_corner
+                         ? rc::gen::mapcat(gen::chance(50), [](bool lowest) { return lowest ? rc::gen::just(1e-8) : gen::logu(1e-8, 3e-8); })
+                         : gen::logu(1e-8, 1e-3);
+    return rc::gen::map(rc::gen::tuple(gen_raw(family == family_t::bundle_corner), g_solver, g_size, g_evals, g_eps, g_radius, gen_draws(slots, 5)),
                         [](const std::tuple<raw_t, std::string, int, int, double, std::pair<bool, double>, draws_t>& t)
                         {
                             const auto& r = std::get<0>(t);
@@ -724,5 +730,6 @@ int main(int argc, char** argv)
     suite.add<scase_t>("bundle", [] { return gen_case(family_t::bundle); }, check_case, 1.0);
     suite.add<scase_t>("bundle-small", [] { return gen_case(family_t::bundle_small); }, check_case, 0.3);
     suite.add<scase_t>("bundle-asan", [] { return gen_case(family_t::bundle_asan); }, check_case, 0.1);
+    suite.add<scase_t>("bundle-corner", [] { return gen_case(family_t::bundle_corner); }, check_case, 0.3);
     return suite.main(argc, argv);
 }
